@@ -181,6 +181,16 @@ def run_checks(ctx, want):
         rounds = 3000 if ctx.thorough() else 300
         episodes += [["cb race %d %d %d" % (c, m, rounds)] for c, m in ((2, 1), (6, 1), (12, 1), (8, 2))]
     bad = d.check(episodes, oracle=lambda e, o: oracle(e, o, want), label="cb")
+    # the breaker as the balancer wires it (setupCircuitBreaker: thresholds, interval, timeout,
+    # max_requests defaulting) under the virtual clock: correspondence with the LB model
+    from .. import lbgen
+    from . import c02
+    lbbin = c02.build(ctx)
+    dl = C.Differential(ctx, lbbin)
+    dl.n = 700
+    wired = [lbgen.mixed_episode(ctx.rng, n=40, cb=True, passive=False) for _ in range(400 if ctx.thorough() else 80)]
+    dl.check(wired, oracle=None, label="cb-wiring")
+    ctx.cov["wiring_episodes"] = len(wired)
     trans = {}
     nontriv = set()
     tags = {}
